@@ -395,6 +395,23 @@ pub fn replay_inner(path: &Path) -> i32 {
         eprintln!("HARNESS ERROR: {e}");
         return 2;
     }
+    if let Trace::SeedSeq { check, tier, base, indices } = &rf.trace {
+        let last = match indices.last() {
+            Some(l) => *l,
+            None => return 2,
+        };
+        let solo = solo_digest(check, *tier, *base, last);
+        let seq = seq_digest(check, *tier, *base, indices);
+        crate::exec::cleanup_process_scratch();
+        return if solo.is_some() && seq.is_some() && solo != seq {
+            println!("reproduced: run index {last} gives event log {:?} alone in a fresh process and {:?} after {} earlier runs in the same process", solo, seq, indices.len() - 1);
+            println!("VIOLATION property={} replay={}", rf.property, path.display());
+            1
+        } else {
+            println!("did not reproduce (alone {:?}, in sequence {:?})", solo, seq);
+            0
+        };
+    }
     let scratch = Scratch::new("replay");
     let fs = checks::replay_trace(&rf.property, &rf.trace, &scratch);
     drop(scratch);
@@ -408,6 +425,28 @@ pub fn replay_inner(path: &Path) -> i32 {
     }
     println!("did not reproduce ({} other findings)", fs.len());
     0
+}
+
+/// Event-log digest of one run index executed alone in a fresh process.
+pub fn solo_digest(check: &str, tier: Tier, base: u64, index: u64) -> Option<String> {
+    let out = std::process::Command::new(std::env::current_exe().ok()?)
+        .args(["one", check, tier.name(), &base.to_string(), &index.to_string()])
+        .stderr(std::process::Stdio::null())
+        .output()
+        .ok()?;
+    let text = String::from_utf8_lossy(&out.stdout).to_string();
+    text.lines().find_map(|l| l.strip_prefix("log_digest ")).and_then(|r| r.split_whitespace().next()).map(|s| s.to_string())
+}
+
+/// Execute run indices in order in this process; the event-log digest of the last one.
+pub fn seq_digest(check: &str, tier: Tier, base: u64, indices: &[u64]) -> Option<String> {
+    let scratch = Scratch::new("seq");
+    let mut last = None;
+    for i in indices {
+        let rec = checks::run_one(check, tier, base.wrapping_add(*i), *i, &scratch);
+        last = Some(format!("{:016x}", rec.log_digest));
+    }
+    last
 }
 
 /// Does `trace` violate (prop, clause) when it is the first thing a fresh process executes?
@@ -693,9 +732,58 @@ pub fn check_main(a: CheckArgs) -> i32 {
         }
     }
     if !nondet.is_empty() {
-        println!("HARNESS ERROR: event logs differ between two executions of the same seeds at run indices {:?}", &nondet[..nondet.len().min(8)]);
-        if exit == 0 {
-            exit = 2;
+        // either the harness is not deterministic (two solo executions of one index differ: exit 2), or the
+        // outcome of a run depends on what the process executed before it: state carried over inside the
+        // library. The latter is C13's business (the verdict is a function of its inputs).
+        let i = nondet[0];
+        let s1 = solo_digest(&a.check, a.tier, a.seed, i);
+        let s2 = solo_digest(&a.check, a.tier, a.seed, i);
+        if s1.is_none() || s1 != s2 {
+            println!("HARNESS ERROR: event logs differ between two executions of the same seeds at run indices {:?} (and two solo executions of index {} differ: {:?} vs {:?})", &nondet[..nondet.len().min(8)], i, s1, s2);
+            if exit == 0 {
+                exit = 2;
+            }
+        } else {
+            // the sequence the main run's worker executed up to i
+            let workers = a.workers.max(1).min(a.runs.max(1));
+            let mut indices: Vec<u64> = (0..=i).filter(|k| k % workers == i % workers).collect();
+            let in_main = res.summary.log_digests.get(&i).map(|d| format!("{:016x}", d));
+            if in_main == s1 {
+                // then it was the re-run's worker (5 workers) that saw the other outcome
+                let w2 = 5u64.min(if matches!(a.check.as_str(), "C06" | "C08" | "C05") { 6.min(a.runs) } else { 64.min(a.runs) });
+                indices = (0..=i).filter(|k| k % w2 == i % w2).collect();
+            }
+            let _ = std::fs::create_dir_all(&replays);
+            let path = replays.join(format!("verdict-depends-on-process-history-{}.json", a.seed.wrapping_add(i)));
+            let rf = ReplayFile {
+                format: 1,
+                property: "C13".into(),
+                clause: "verdict-depends-on-process-history".into(),
+                site: "process-history".into(),
+                seed: a.seed.wrapping_add(i),
+                index: i,
+                tier: a.tier.name().into(),
+                detail: format!("run index {i} of check {} gives another event log after {} earlier runs in the same process than alone in a fresh process", a.check, indices.len() - 1),
+                minimised: false,
+                trace: Trace::SeedSeq { check: a.check.clone(), tier: a.tier, base: a.seed, indices },
+            };
+            std::fs::write(&path, serde_json::to_string_pretty(&rf).unwrap()).expect("write replay");
+            let out = std::process::Command::new(std::env::current_exe().unwrap()).args(["replay", path.to_str().unwrap()]).output().expect("replay subprocess");
+            if out.status.code() == Some(1) {
+                if a.check == "C13" {
+                    println!("violation: C13 / verdict-depends-on-process-history — {}", rf.detail);
+                    println!("VIOLATION property=C13 replay={}", path.display());
+                    confirmed_violations += 1;
+                    exit = 1;
+                } else {
+                    println!("  cross-finding C13:verdict-depends-on-process-history replay={} ({})", path.display(), rf.detail);
+                }
+            } else {
+                println!("HARNESS ERROR: event logs differ between two executions of the same seeds at run indices {:?}; not reproducible from {}", &nondet[..nondet.len().min(8)], path.display());
+                if exit == 0 {
+                    exit = 2;
+                }
+            }
         }
     }
     let judged = s.evaluations.saturating_sub(s.vacuous);
